@@ -316,6 +316,17 @@ def _cap_memory():
     resource.setrlimit(resource.RLIMIT_AS, (DRIVER_MEMORY_CAP, DRIVER_MEMORY_CAP))
 
 
+# the implementation under test gets an address-space limit too: a generated program that makes p2sh ask for more is "more
+# memory than the machine has" (the allocator's refusal is reported as ABORT(alloc-failed) and judged as such); without
+# it one such program took a thorough run (and everything else on the machine) down at 29–44 GB
+HARNESS_MEMORY_CAP = 10 * 1024 ** 3
+
+
+def _cap_memory_harness():
+    import resource
+    resource.setrlimit(resource.RLIMIT_AS, (HARNESS_MEMORY_CAP, HARNESS_MEMORY_CAP))
+
+
 def _run_lines(exe, lines, timeout, label, extra_env=None):
     """Feed `lines` to a line-protocol executable; returns one output per line.
     A process that dies or stalls marks the offending line ABORT/HANG and is restarted."""
@@ -340,7 +351,7 @@ def _run_lines(exe, lines, timeout, label, extra_env=None):
         try:
             with tempfile.TemporaryFile() as errf:
                 p = subprocess.run([exe], input=data, stdout=subprocess.PIPE, stderr=errf, timeout=eff_timeout, env=e,
-                                   preexec_fn=_cap_memory if label == "driver" else None)
+                                   preexec_fn=_cap_memory if label == "driver" else _cap_memory_harness)
                 errf.seek(max(0, errf.tell() - 4000))
                 errtail = errf.read().decode("utf-8", "replace")
             text = p.stdout.decode("utf-8", "replace")
